@@ -135,38 +135,73 @@ impl RegexMatcher {
         } else {
             pattern.to_owned()
         };
-        let regex = if !has_back_reference(&pattern) {
-            Regex::with_options(
-                &format!("{open}{pattern}{close}\\'"),
-                options,
-                &whole_syntax,
-            )?
-        } else if !pattern.contains(&format!("{open}?")) {
-            // An extra capturing group would renumber the back-references:
-            // use a group that does not capture (its "(?:" spelling is only
-            // switched on here, where the pattern has no "(?" of its own).
-            whole_syntax.enable_operators(SyntaxOperator::SYNTAX_OPERATOR_QMARK_GROUP_EFFECT);
-            Regex::with_options(
-                &format!("{open}?:{pattern}{close}\\'"),
-                options,
-                &whole_syntax,
-            )?
-        } else {
-            Regex::with_options(&format!("{pattern}\\'"), options, &whole_syntax)?
-        };
+        // The group is one more for the pattern's back-references to count.
+        let pattern = shift_back_references(&pattern);
+        let regex = Regex::with_options(
+            &format!("{open}{pattern}{close}\\'"),
+            options,
+            &whole_syntax,
+        )?;
         Ok(Self { regex })
     }
 }
 
-/// Does the pattern refer back to a group (`\1` to `\9`)?
-fn has_back_reference(pattern: &str) -> bool {
-    let mut bytes = pattern.bytes();
-    while let Some(b) = bytes.next() {
-        if b == b'\\' && matches!(bytes.next(), Some(b'1'..=b'9')) {
-            return true;
+/// The pattern with each back-reference `\1` to `\9` pointing one group
+/// further (bracket expressions are copied as they are).
+fn shift_back_references(pattern: &str) -> String {
+    let mut shifted = String::with_capacity(pattern.len());
+    let mut chars = pattern.chars().peekable();
+    while let Some(c) = chars.next() {
+        shifted.push(c);
+        match c {
+            '\\' => match chars.next() {
+                Some(digit @ '1'..='9') => {
+                    shifted.push_str(&(digit.to_digit(10).unwrap() + 1).to_string());
+                    // A digit after it is not part of the number.
+                    if let Some(literal) = chars.next_if(char::is_ascii_digit) {
+                        shifted.push_str(&format!("[{literal}]"));
+                    }
+                }
+                Some(next) => shifted.push(next),
+                None => {}
+            },
+            '[' => copy_bracket_expression(&mut chars, &mut shifted),
+            _ => {}
         }
     }
-    false
+    shifted
+}
+
+/// Copies a bracket expression, after its "[": "^" and a "]" right after the
+/// opening, then up to the closing "]", with "[:alpha:]", "[.a.]" and "[=a=]"
+/// as units.
+fn copy_bracket_expression(chars: &mut std::iter::Peekable<std::str::Chars>, copy: &mut String) {
+    if chars.peek() == Some(&'^') {
+        copy.push('^');
+        chars.next();
+    }
+    if chars.peek() == Some(&']') {
+        copy.push(']');
+        chars.next();
+    }
+    while let Some(c) = chars.next() {
+        copy.push(c);
+        if c == ']' {
+            break;
+        }
+        if c == '[' && matches!(chars.peek(), Some(':' | '.' | '=')) {
+            let kind = chars.next().unwrap();
+            copy.push(kind);
+            let mut previous = '[';
+            for c in chars.by_ref() {
+                copy.push(c);
+                if c == ']' && previous == kind {
+                    break;
+                }
+                previous = c;
+            }
+        }
+    }
 }
 
 /// In the posix-extended syntax a ")" without a "(" before it is an ordinary
@@ -186,36 +221,8 @@ fn escape_unmatched_close_parens(pattern: &str) -> String {
                 continue;
             }
             '[' => {
-                // A bracket expression is copied as it is: "^" and a "]"
-                // right after the opening, then up to the closing "]", with
-                // "[:alpha:]", "[.a.]" and "[=a=]" as units.
                 escaped.push(c);
-                if chars.peek() == Some(&'^') {
-                    escaped.push('^');
-                    chars.next();
-                }
-                if chars.peek() == Some(&']') {
-                    escaped.push(']');
-                    chars.next();
-                }
-                while let Some(c) = chars.next() {
-                    escaped.push(c);
-                    if c == ']' {
-                        break;
-                    }
-                    if c == '[' && matches!(chars.peek(), Some(':' | '.' | '=')) {
-                        let kind = chars.next().unwrap();
-                        escaped.push(kind);
-                        let mut previous = '[';
-                        for c in chars.by_ref() {
-                            escaped.push(c);
-                            if c == ']' && previous == kind {
-                                break;
-                            }
-                            previous = c;
-                        }
-                    }
-                }
+                copy_bracket_expression(&mut chars, &mut escaped);
                 continue;
             }
             '(' => depth += 1,
